@@ -18,7 +18,7 @@ class C09(Check):
             "delivered); distinct = distinct (archive, entry, schedule) outputs")
     trusted = ["tools/genzip.py reference builder"]
     assumptions = ["chunk independence of flate2/bzip2/zstd decoders is exercised, not proved",
-                   "writer-side short writes are covered by C11/C12 runs once the writer model lands"]
+                   "writer side: proved for the sink primitives (write_all, field-by-field headers) and for the write call on a stored entry under every failure-free short-write plan; whole programs (compressing/encrypting arms, finish) under short writes are compared byte-for-byte with the unchunked run in the implementation and the model, not proved"]
 
     def seeds(self):
         zs = run_lines(self.exes["debug"], ["zstd_compress %s 3" % hexs(b"zstd payload " * 9)], shards=1)[0]
